@@ -77,28 +77,11 @@ fn expected_errors(root: &Module, sites: &[Site], by_name: &HashMap<String, usiz
     errs
 }
 
-fn err_name(e: &CompilationErrorPayload) -> &'static str {
-    use CompilationErrorPayload::*;
-    match e {
-        Unimplemented(_) => "Unimplemented",
-        NoMain => "NoMain",
-        EmptyProgram => "EmptyProgram",
-        TooManyCards(_) => "TooManyCards",
-        DuplicateName(_) => "DuplicateName",
-        DuplicateModule(_) => "DuplicateModule",
-        MissingSubProgram(_) => "MissingSubProgram",
-        InvalidJump { .. } => "InvalidJump",
-        InternalError => "InternalError",
-        TooManyLocals => "TooManyLocals",
-        TooManyUpvalues => "TooManyUpvalues",
-        BadVariableName(_) => "BadVariableName",
-        EmptyVariable => "EmptyVariable",
-        BadFunctionName(_) => "BadFunctionName",
-        RecursionLimitReached(_) => "RecursionLimitReached",
-        BadImport(_) => "BadImport",
-        AmbigousImport(_) => "AmbigousImport",
-        SuperLimitReached => "SuperLimitReached",
-    }
+/// the variant name, taken from the Debug form so that a variant added to the crate later does not stop the harness
+/// from compiling
+fn err_name(e: &CompilationErrorPayload) -> String {
+    let d = format!("{e:?}");
+    d.split(|c: char| !c.is_alphanumeric()).next().unwrap_or("?").to_string()
 }
 
 fn collect_sites(m: &Module, path: &mut Vec<String>, out: &mut Vec<Site>) {
@@ -549,8 +532,8 @@ impl Engine for ResolveEngine {
             (Err(e), false) => {
                 let k = err_name(&e.payload);
                 obs.inc(&format!("rejected:{k}"));
-                let ok = expected.contains(k)
-                    || (expected.contains("BadModuleName") && true)
+                let ok = expected.contains(k.as_str())
+                    || expected.contains("BadModuleName")
                     || (k == "SuperLimitReached" && expected.contains("InvalidJump"));
                 if !ok {
                     let list: Vec<&str> = expected.iter().copied().collect();
